@@ -476,14 +476,29 @@ class AsyncWorld(World):
             # buggify: the boundary socketio -> engine.io is a suspension
             # point of seeded length (a coroutine may always suspend;
             # back-pressure).  Mostly zero.
+            # Sends to one transport complete in the order they were
+            # issued (a back-pressured transport queues them): engine.io's
+            # own send never reorders, and python-socketio relies on that
+            # (the parts of a binary packet are sent by separate tasks).
+            busy = {}
             for meth in ('send', 'send_packet'):
                 orig = getattr(srv.eio, meth)
 
                 async def boundary(*a, _orig=orig, **kw):
                     d = self.choices.pick('sched', self.send_pauses, 'sendp')
-                    if d:
+                    key = a[0] if a else None
+                    now = self.loop.time()
+                    at = max(busy.get(key, 0.0), now + d)
+                    if at > now:
+                        busy[key] = at
                         self.rec.count('net.send_suspended')
-                        await asyncio.sleep(d)
+                        f = self.loop.create_future()
+                        h = self.loop.call_at(
+                            at, lambda: f.done() or f.set_result(None))
+                        try:
+                            await f
+                        finally:
+                            h.cancel()
                     return await _orig(*a, **kw)
                 setattr(srv.eio, meth, boundary)
         self.servers[name] = srv
